@@ -161,7 +161,7 @@ Print Assumptions C05_error_line_col.
 
     PARTIAL.  The documents are those of the CORE grammar of C02
     ([Doc/DocGrammar.v]: text, braced groups, macro calls with mandatory braced
-    arguments, [$ $] / [\( \)] / [\[ \]] formulas, comments, paragraph breaks;
+    arguments, [$ $] / [\( \)] / [\[ \]] / [$$ $$] formulas, comments, paragraph breaks;
     [ok_doc] = its side conditions), ALL of them (unbounded depth and size), ALL
     contexts.  The insertion point is an ITEM BOUNDARY of an arbitrarily nested
     body, given by a zipper ([Proofs/FaultZip.v]): [zdoc path l1 l2 dtr] is the
@@ -174,7 +174,10 @@ Print Assumptions C05_error_line_col.
         ([C05_fault_closing_partial]: error "unexpected closing brace" AT the brace);
       - [\)] / [\]] inserted anywhere except in the body of a formula of the same
         kind (there it closes the formula), at any depth: error "unexpected
-        closing math delimiter" AT the token;
+        closing math delimiter" AT the token ([$] and [$$] are NOT stray closing
+        tokens: wherever they are not the expected closing delimiter they open
+        a formula, [C05_dollars_are_not_closing_tokens]; they are covered as
+        OPENING delimiters and by [C05_fault_dollar_in_dollars*]);
       - [\end{x}] inserted anywhere, at any depth: error "unexpected \end" AT the token;
         in these three cases whatever follows the token is irrelevant
         ([C05_fault_closing_any_suffix_partial]: the left context and the items
@@ -183,14 +186,14 @@ Print Assumptions C05_error_line_col.
         or covered by its fallback) inserted at top level
         ([C05_fault_opening_partial]): the new construct swallows the rest, error
         "closing delimiter not found" (6) located right after the inserted
-        delimiter, raised when the input ends; [\(], [\[], [$] (and [\begin{x}]
+        delimiter, raised when the input ends; [\(], [\[], [$], [$$] (and [\begin{x}]
         with a math-mode body) likewise, in front of items that are also a
         well-formed formula body (no formula directly among them) and, for [$],
         not directly in front of another [$];
       - the same opening delimiters inserted in a NESTED body, at any depth
         ([C05_fault_opening_nested_partial]), when the closing delimiter of the
         enclosing construct is not also the closing delimiter of the new one
-        ([{] in a [\( \)] or [\[ \]] formula; [$], [\(], [\[] in a group or macro
+        ([{] in a [\( \)] or [\[ \]] formula; [$], [$$], [\(], [\[] in a group or macro
         argument outside math mode; [\begin{x}] in a group, a macro argument, a
         [\( \)] or [\[ \]] formula): the new construct runs into that closing
         delimiter and its collector rejects it THERE (unexpected closing brace /
@@ -206,10 +209,11 @@ Print Assumptions C05_error_line_col.
         ([C05_fault_closing_math_same_partial]): the formula closes early, its own
         closing delimiter is rejected;
       - [$] inserted in a [$ $] formula (after at least one character of its
-        body) whose remaining body is also well formed outside math mode and
+        body), or [$$] inserted in a [$$ $$] formula (anywhere in its body),
+        whose remaining body is also well formed outside math mode and
         whose later siblings are also well formed in math mode
         ([C05_fault_dollar_in_dollars(_nested)_partial]): the formula closes
-        early, its own closing [$] opens a formula that is never closed (top
+        early, its own closing [$] / [$$] opens a formula that is never closed (top
         level) / runs into the enclosing closing delimiter (nested body);
       - [{] inserted in a group, itself in a chain of directly nested groups that
         stands at top level ([C05_fault_opening_brace_in_groups_partial]: the
@@ -220,9 +224,10 @@ Print Assumptions C05_error_line_col.
     NOT covered (differential testing only): [}] inserted in a macro argument
     that is not the last one or that changes the math mode (what follows is read
     as the next argument / in another mode),
-    [{] inserted in a macro argument or in a group chain standing in a [$ $]
+    [{] inserted in a macro argument or in a group chain standing in a [$ $] / [$$ $$]
     formula or macro argument, an opening delimiter inserted in a
-    [$ $] formula, a math delimiter or math-body environment in front of items
+    [$ $] / [$$ $$] formula (the new construct's collector does not reject the
+    formula's closing [$] / [$$]: it opens a nested formula), a math delimiter or math-body environment in front of items
     that contain a formula, environments with arguments, insertion points inside
     an item (between the tokens of a macro call, inside whitespace), the grammar
     beyond the core one. *)
@@ -235,11 +240,13 @@ Theorem C05_zdoc_text : forall path l1 l2 dtr,
 Proof. exact zdoc_unparse. Qed.
 
 (** ** A stray closing token.  [stray_text c] is [}], [\)], [\]] or [\end{x}];
-    [stray_wf c]: [c] is not [SMClose MDollar], the environment name is
-    non-empty and made of environment-name characters; [closes_hole (lefts path)
+    [stray_wf c]: [c] is not [SMClose MDollar] nor [SMClose MDollars] (the
+    side condition is necessary: a [$] / [$$] that is not the expected closing
+    delimiter OPENS a formula, see [C05_dollars_are_not_closing_tokens]), the
+    environment name is non-empty and made of environment-name characters; [closes_hole (lefts path)
     c = false]: the token is not the closing delimiter of the innermost
     construct of the path ([}] in a group or macro argument, [\)] in [\( \)],
-    [\]] in [\[ \]]).  The strict parse fails with an error located exactly at
+    [\]] in [\[ \]]); the path may go through formulas of all four kinds.  The strict parse fails with an error located exactly at
     the inserted token, of the collector's raise site for that token
     ([stray_what]: 2 = unexpected closing brace, 4 = unexpected closing math
     delimiter, 3 = unexpected [\end]), the reader standing right after it. *)
@@ -269,7 +276,7 @@ Theorem C05_fault_closing_any_suffix_partial : forall cx path l1 fws c g,
 Proof. exact fault_closing. Qed.
 
 (** ** An unmatched opening delimiter: [open_text op] is [{] ([OBrace]), [$],
-    [\(], [\[] ([OMath k]) or [\begin{x}] ([OBegin x]).  [open_side cx hs op l2
+    [\(], [\[], [$$] ([OMath k], all four kinds) or [\begin{x}] ([OBegin x]).  [open_side cx hs op l2
     fol] (state [hs] of the body it is inserted in, items [l2] after it, then
     [fol]): [open_wf] — a math delimiter stands outside math mode; the
     environment name is valid, the context knows the environment (or has a
@@ -292,7 +299,7 @@ Proof. exact fault_opening_doc. Qed.
 
 (** In a nested body (path [path ++ [f]], innermost construct [f]) the new
     construct reads on to the closing delimiter [c] of [f] ([closer_of f = Some
-    c]: [}] for a group or macro argument, [\)], [\]]; none for [$ $]); if that is
+    c]: [}] for a group or macro argument, [\)], [\]]; none for [$ $] and [$$ $$]); if that is
     not its own closing delimiter ([stray_ok]) its collector rejects it: the
     error is located AT the closing delimiter of [f] (after the rest [l2] of the
     body and the whitespace [frame_tr f] in front of it), with the raise site of
@@ -355,14 +362,16 @@ Theorem C05_fault_closing_brace_in_groups_partial : forall cx outer chain l1 l2 
 Proof. exact fault_closing_brace_chain. Qed.
 
 (** ** A closing math delimiter [\)] / [\]] inserted in a formula of the SAME
-    kind ([f = FMath b ws k tr a], [k <> MDollar]) closes it early; the rest
+    kind ([f = FMath b ws k tr a], [k <> MDollar], [k <> MDollars]: for [$] /
+    [$$] the outcome is another one, see [C05_fault_dollar_in_dollars_partial]
+    below and [C05_dollars_are_not_closing_tokens]) closes it early; the rest
     [l2] of the formula body is then read in the enclosing body, outside math
     mode — hypothesis: it is well formed there too — and the formula's own
     closing delimiter is left over: "unexpected closing math delimiter" (4)
     located at it.  ([closes_hole (lefts path) (SMClose k) = false] holds for
     every well-formed document: a formula does not stand directly in a formula.) *)
 Theorem C05_fault_closing_math_same_partial : forall cx path b ws k tr a l1 l2 dtr,
-  k <> MDollar ->
+  k <> MDollar -> k <> MDollars ->
   let f := FMath b ws k tr a in
   let hs := lp_state cx (walker_state cx) (lefts path) in
   ok_doc cx (zdoc (path ++ [f]) l1 l2 dtr) = true ->
@@ -376,37 +385,42 @@ Theorem C05_fault_closing_math_same_partial : forall cx path b ws k tr a l1 l2 d
     /\ pe_pos e = Some q /\ pe_what e = 4.
 Proof. exact fault_close_math_same. Qed.
 
-(** ** A [$] inserted in a [$ $] formula ([f = FMath b ws MDollar tr a], after at
-    least one character of its body) closes it early; the rest [l2] of the body
+(** ** A [$] inserted in a [$ $] formula (after at least one character of its
+    body: [$$] would be the display delimiter), or a [$$] inserted in a [$$ $$]
+    formula (anywhere in its body) — [f = FMath b ws k tr a], [dollar_kind k]:
+    [k = MDollar \/ k = MDollars] — closes it early; the rest [l2] of the body
     is read in the enclosing body (hypothesis: well formed there) and the
-    formula's own closing [$] OPENS a new formula that takes in what follows
-    (hypothesis: the later siblings [a] are well formed in math mode and do not
-    start with [$]).  At top level that formula is never closed: error 6 right
-    after that [$], raised at the end of input; in a nested body it runs into
-    the enclosing closing delimiter, rejected there. *)
-Theorem C05_fault_dollar_in_dollars_partial : forall cx b ws tr a l1 l2 dtr,
-  let f := FMath b ws MDollar tr a in
+    formula's own closing [$] / [$$] OPENS a new formula that takes in what follows
+    (hypothesis: the later siblings [a] are well formed in math mode and, for
+    [$], do not start with [$]).  At top level that formula is never closed:
+    error 6 right after that [$] / [$$], raised at the end of input; in a nested
+    body it runs into the enclosing closing delimiter, rejected there. *)
+Theorem C05_fault_dollar_in_dollars_partial : forall cx b ws k tr a l1 l2 dtr,
+  dollar_kind k ->
+  let f := FMath b ws k tr a in
   let ps0 := walker_state cx in
-  ok_doc cx (zdoc [f] l1 l2 dtr) = true -> unparse_items l1 <> [] ->
-  ok_items cx ps0 l2 (hd_error (tr ++ [36%N])) = true ->
-  ok_items cx (ps_enter_math ps0 (Some [36%N])) a (hd_error dtr) = true ->
-  hd_not (fun c => N.eqb c 36) (unparse_items a ++ dtr) ->
-  let s := zleft [f] l1 ++ [36%N] ++ zright [f] l2 dtr in
-  let q := length (unparse_items (b ++ Math ws MDollar l1 [] :: l2)) + length tr + 1 in
+  ok_doc cx (zdoc [f] l1 l2 dtr) = true -> (k = MDollar -> unparse_items l1 <> []) ->
+  ok_items cx ps0 l2 (hd_error (tr ++ m_close k)) = true ->
+  ok_items cx (ps_enter_math ps0 (Some (m_open k))) a (hd_error dtr) = true ->
+  (k = MDollar -> hd_not (fun c => N.eqb c 36) (unparse_items a ++ dtr)) ->
+  let s := zleft [f] l1 ++ m_close k ++ zright [f] l2 dtr in
+  let q := length (unparse_items (b ++ Math ws k l1 [] :: l2)) + length tr + length (m_close k) in
   exists e, parse_top s false cx ps0 = PErr e (length s) /\ pe_pos e = Some q /\ pe_what e = 6.
 Proof. exact fault_dollar_early_top. Qed.
 
-Theorem C05_fault_dollar_in_dollars_nested_partial : forall cx path g b ws tr a l1 l2 dtr c,
-  let f := FMath b ws MDollar tr a in
+Theorem C05_fault_dollar_in_dollars_nested_partial : forall cx path g b ws k tr a l1 l2 dtr c,
+  dollar_kind k ->
+  let f := FMath b ws k tr a in
   let hs := lp_state cx (walker_state cx) (lefts (path ++ [g])) in
-  ok_doc cx (zdoc ((path ++ [g]) ++ [f]) l1 l2 dtr) = true -> closer_of g = Some c -> unparse_items l1 <> [] ->
-  ok_items cx hs l2 (hd_error (tr ++ [36%N])) = true ->
-  ok_items cx (ps_enter_math hs (Some [36%N])) a (hd_error (frame_tr g ++ stray_text c)) = true ->
-  hd_not (fun c0 => N.eqb c0 36) (unparse_items a ++ frame_tr g ++ stray_text c) ->
-  let q := length (lp_text (lefts (path ++ [g]))) + length (unparse_items (b ++ Math ws MDollar l1 [] :: l2))
-           + length tr + 1 + length (unparse_items a) + length (frame_tr g) in
+  ok_doc cx (zdoc ((path ++ [g]) ++ [f]) l1 l2 dtr) = true -> closer_of g = Some c ->
+  (k = MDollar -> unparse_items l1 <> []) ->
+  ok_items cx hs l2 (hd_error (tr ++ m_close k)) = true ->
+  ok_items cx (ps_enter_math hs (Some (m_open k))) a (hd_error (frame_tr g ++ stray_text c)) = true ->
+  (k = MDollar -> hd_not (fun c0 => N.eqb c0 36) (unparse_items a ++ frame_tr g ++ stray_text c)) ->
+  let q := length (lp_text (lefts (path ++ [g]))) + length (unparse_items (b ++ Math ws k l1 [] :: l2))
+           + length tr + length (m_close k) + length (unparse_items a) + length (frame_tr g) in
   exists e,
-    parse_top (zleft ((path ++ [g]) ++ [f]) l1 ++ [36%N] ++ zright ((path ++ [g]) ++ [f]) l2 dtr)
+    parse_top (zleft ((path ++ [g]) ++ [f]) l1 ++ m_close k ++ zright ((path ++ [g]) ++ [f]) l2 dtr)
               false cx (walker_state cx)
     = PErr e (q + length (stray_text c))
     /\ pe_pos e = Some q /\ pe_what e = stray_what c.
@@ -420,7 +434,8 @@ Proof. exact fault_dollar_early_nested. Qed.
     swallows what follows ([late chain l1 l2] = its body as the faulted text
     reads).  Standing at top level it is rejected when the input ends, error 6
     located right after its opening brace; standing in a [\( \)] or [\[ \]]
-    formula [g] it runs into the formula's closing delimiter, rejected there. *)
+    formula [g] ([closer_of g = Some c], [c <> SBrace]; not [$ $] / [$$ $$]) it
+    runs into the formula's closing delimiter, rejected there. *)
 Theorem C05_fault_opening_brace_in_groups_partial : forall cx chain l1 l2 dtr,
   forallb is_grp chain = true -> chain <> [] ->
   ok_doc cx (zdoc chain l1 l2 dtr) = true ->
@@ -642,6 +657,98 @@ Example C05_fault_any_suffix_nonvacuous :
 Proof.
   vm_compute. split; [reflexivity|]. split; [reflexivity|]. split; [reflexivity|]. split; [eexists; repeat split|].
   split; [reflexivity|]. split; [reflexivity|]. split; [reflexivity|]. eexists; repeat split.
+Qed.
+
+(** display formulas [$$ $$] (the fourth math kind).  [a $$b c$$ d]: a stray [}]
+    / [\)] / [\]] / [\end{zq}] between [b] and [ c] is rejected where it stands
+    (offset 5; the path goes through a [$$ $$] formula); [$$] inserted there
+    closes the formula, [ c] is read as text and the formula's own [$$] opens a
+    formula [ d] that never ends (error 6 located at offset 11, raised at the
+    end); [$$] inserted right at the START of the body (allowed for [$$], not
+    for [$]) likewise; the same formula inside a group: the new formula runs
+    into the group's [}] (offset 14) *)
+Example C05_fault_dollars_nonvacuous :
+  let f := FMath [Text [] [97]] [32] MDollars [] [Text [32] [100]] in
+  let fm := FMath [Text [] [97]] [32] MDollars [] [] in
+  let g := FGrp [] [] [] [] in
+  let l1 := [Text [] [98]] in let l2 := [Text [32] [99]] in
+  let ps0 := walker_state default_ctx in
+  ok_doc default_ctx (zdoc [fm] l1 l2 []) = true /\
+  unparse (zdoc [fm] l1 l2 []) = [97;32;36;36;98;32;99;36;36] /\
+  forallb (fun c =>
+    negb (closes_hole (lefts [fm]) c) &&
+    match parse_top (zleft [fm] l1 ++ stray_text c ++ zright [fm] l2 []) false default_ctx ps0 with
+    | PErr e p => Nat.eqb p (5 + length (stray_text c)) && Nat.eqb (pe_what e) (stray_what c)
+                  && match pe_pos e with Some q => Nat.eqb q 5 | None => false end
+    | _ => false end) [SBrace; SMClose MParen; SMClose MBracket; SEnd [122;113]] = true /\
+  dollar_kind MDollars /\
+  ok_doc default_ctx (zdoc [f] l1 l2 []) = true /\
+  unparse (zdoc [f] l1 l2 []) = [97;32;36;36;98;32;99;36;36;32;100] /\
+  ok_items default_ctx ps0 l2 (hd_error ([] ++ m_close MDollars)) = true /\
+  ok_items default_ctx (ps_enter_math ps0 (Some (m_open MDollars))) [Text [32] [100]] None = true /\
+  (exists e, parse_top (zleft [f] l1 ++ m_close MDollars ++ zright [f] l2 []) false default_ctx ps0
+             = PErr e 13 /\ pe_pos e = Some 11%nat /\ pe_what e = 6%nat) /\
+  ok_doc default_ctx (zdoc [f] [] (l1 ++ l2) []) = true /\
+  (exists e, parse_top (zleft [f] [] ++ m_close MDollars ++ zright [f] (l1 ++ l2) []) false default_ctx ps0
+             = PErr e 13 /\ pe_pos e = Some 11%nat /\ pe_what e = 6%nat) /\
+  ok_doc default_ctx (zdoc (([] ++ [g]) ++ [f]) l1 l2 []) = true /\
+  (exists e, parse_top (zleft (([] ++ [g]) ++ [f]) l1 ++ m_close MDollars ++ zright (([] ++ [g]) ++ [f]) l2 [])
+                       false default_ctx ps0
+             = PErr e 15 /\ pe_pos e = Some 14%nat /\ pe_what e = 2%nat).
+Proof.
+  vm_compute. split; [reflexivity|]. split; [reflexivity|]. split; [reflexivity|]. split; [right; reflexivity|].
+  split; [reflexivity|]. split; [reflexivity|]. split; [reflexivity|]. split; [reflexivity|].
+  split; [eexists; repeat split|]. split; [reflexivity|]. split; [eexists; repeat split|].
+  split; [reflexivity|]. eexists; repeat split.
+Qed.
+
+(** [$$] as an unmatched OPENING delimiter: inserted after [ab] in [ab {c} d]
+    (never closed: error 6 located at offset 4, raised at the end of input) and
+    between [b] and [ c] in [a {b c} \(d e\) f] (runs into the group's [}] at
+    offset 8 of the faulted text: unexpected closing brace) *)
+Example C05_fault_opening_dollars_nonvacuous :
+  let l1 := [Text [] [97;98]] in
+  let l2 := [Grp [32] [Text [] [99]] []; Text [32] [100]] in
+  let fg := FGrp [Text [] [97]] [32] [] [Math [32] MParen [Text [] [100]; Text [32] [101]] []; Text [32] [102]] in
+  let ps0 := walker_state default_ctx in
+  ok_doc default_ctx {| d_items := l1 ++ l2; d_trail := [] |} = true /\
+  ok_items default_ctx (ps_enter_math ps0 (Some (m_open MDollars))) l2 None = true /\
+  (exists e, parse_top (unparse_items l1 ++ open_text (OMath MDollars) ++ unparse_items l2) false default_ctx ps0
+             = PErr e 10 /\ pe_pos e = Some 4%nat /\ pe_what e = 6%nat) /\
+  ok_doc default_ctx (zdoc [fg] [Text [] [98]] [Text [32] [99]] []) = true /\
+  (exists e, parse_top (zleft [fg] [Text [] [98]] ++ open_text (OMath MDollars) ++ zright [fg] [Text [32] [99]] [])
+                       false default_ctx ps0 = PErr e 9 /\ pe_pos e = Some 8%nat /\ pe_what e = 2%nat).
+Proof.
+  vm_compute. split; [reflexivity|]. split; [reflexivity|]. split; [eexists; repeat split|].
+  split; [reflexivity|]. eexists; repeat split.
+Qed.
+
+(** the side conditions [k <> MDollar], [k <> MDollars] of [stray_wf] and of
+    [C05_fault_closing_math_same_partial] are NECESSARY: [$] / [$$] inserted
+    between [a] and [ b] at top level ([a$ b], [a$$ b]) or in a [\( \)] formula
+    ([\(a$ b\)], [\(a$$ b\)]) is not the closing delimiter of the hole, yet it
+    is not rejected where it stands (error 4 at offset 1 / 3): it OPENS a
+    formula, which is never closed (error 6 located after it, raised at the
+    end of input) / runs into [\)] (error 4 located THERE) *)
+Example C05_dollars_are_not_closing_tokens :
+  let fp := FMath [] [] MParen [] [] in
+  let l1 := [Text [] [97]] in let l2 := [Text [32] [98]] in
+  let ps0 := walker_state default_ctx in
+  ok_doc default_ctx (zdoc [] l1 l2 []) = true /\ ok_doc default_ctx (zdoc [fp] l1 l2 []) = true /\
+  closes_hole (lefts []) (SMClose MDollar) = false /\ closes_hole (lefts []) (SMClose MDollars) = false /\
+  closes_hole (lefts [fp]) (SMClose MDollar) = false /\ closes_hole (lefts [fp]) (SMClose MDollars) = false /\
+  (exists e, parse_top (zleft [] l1 ++ stray_text (SMClose MDollar) ++ zright [] l2 []) false default_ctx ps0
+             = PErr e 4 /\ pe_pos e = Some 2%nat /\ pe_what e = 6%nat) /\
+  (exists e, parse_top (zleft [] l1 ++ stray_text (SMClose MDollars) ++ zright [] l2 []) false default_ctx ps0
+             = PErr e 5 /\ pe_pos e = Some 3%nat /\ pe_what e = 6%nat) /\
+  (exists e, parse_top (zleft [fp] l1 ++ stray_text (SMClose MDollar) ++ zright [fp] l2 []) false default_ctx ps0
+             = PErr e 8 /\ pe_pos e = Some 6%nat /\ pe_what e = 4%nat) /\
+  (exists e, parse_top (zleft [fp] l1 ++ stray_text (SMClose MDollars) ++ zright [fp] l2 []) false default_ctx ps0
+             = PErr e 9 /\ pe_pos e = Some 7%nat /\ pe_what e = 4%nat).
+Proof.
+  vm_compute. split; [reflexivity|]. split; [reflexivity|]. split; [reflexivity|]. split; [reflexivity|].
+  split; [reflexivity|]. split; [reflexivity|]. split; [eexists; repeat split|]. split; [eexists; repeat split|].
+  split; [eexists; repeat split|]. eexists; repeat split.
 Qed.
 
 Print Assumptions C05_zdoc_text.
